@@ -194,6 +194,13 @@ def gen_sqlops():
         raise ShapeError("translate_operator: hole translation changed")
     if ".unwrap_or(parent_binding_strength);" not in o:
         raise ShapeError("translate_operator: default hole strength changed")
+    guard_new = 'letarg=arg.into_source();iftext.ends_with(\'-\')&&arg.starts_with(\'-\'){text+="(";text+=&arg;text+=")";}else{text+=&arg;}'
+    if guard_new in o:
+        minus_guard = True
+    elif "text+=&arg.into_source();" in o:
+        minus_guard = False
+    else:
+        raise ShapeError("translate_operator: the way a translated operand is appended to the text changed")
     mc = re.search(r'text=format!\("COALESCE\(\{text\},\{default\}\)"\);binding_strength=(\d+);', o)
     if not mc:
         raise ShapeError("translate_operator: coalesce wrapping changed")
@@ -259,10 +266,12 @@ def gen_sqlops():
     L.append(f"def sourceStrength : Nat := {wrapped[0]}   -- parenthesised source text")
     L.append(f"def defaultOperatorStrength : Nat := {md.group(1)}   -- template without @{{binding_strength}}")
     L.append(f"def coalescedStrength : Nat := {mc.group(1)}")
+    L.append("/-- translate_operator: an operand whose text starts with `-` is parenthesised when the text before it ends with `-` -/")
+    L.append(f"def minusGuard : Bool := {'true' if minus_guard else 'false'}")
     L.append(f"def betweenOperandStrength : Nat := {mb[0][1]}   -- try_into_between: translate_operand(x, true, N, Both)")
     L += ["", "end Gen.SqlOps", ""]
     summary = {"root_ops": len(mods[""]), "sqlite_ops": sorted(mods["sqlite"]), "operator_from_name": pairs,
                "binary_strength": {b: val(bs, bs_def, b) for b in sqlbins}, "assoc": {b: aval(b) for b in sqlbins},
                "unary": {"Minus": val(us, us_def, "Minus"), "Not": val(us, us_def, "Not")},
-               "expr": {"IsNull": val(es, es_def, "IsNull"), "other": int(es_def)}, "modules": [m for m in mods if m]}
+               "minus_guard": minus_guard, "expr": {"IsNull": val(es, es_def, "IsNull"), "other": int(es_def)}, "modules": [m for m in mods if m]}
     return "\n".join(L), summary
